@@ -49,7 +49,7 @@ func T(path string) Tmpl {
 }
 
 // KeyAlphabet are the string key values the generators draw from.
-var KeyAlphabet = []string{"a", "b", "a/b", "a_b", "a b", "x:y", "k=v", "[z]", "eth1", "eth10", "c.d", "*"}
+var KeyAlphabet = []string{"a", "b", "a/b", "a_b", "a b", "x:y", "k=v", "[z]", "eth1", "eth10", "c.d", "*", "cfg"} // cfg: also the name of a child container of l1
 
 var numKeyValues = []string{"1", "2", "10"}
 
@@ -188,12 +188,13 @@ var UniPlain = &Universe{Name: "plain", Tmpls: tmpls(
 	"plain/l2a/v", "plain/l2a/w", "plain/l3a/v", "plain/ifc/v", "plain/ifc-ext/v",
 	"plain/l1/descr", "plain/l1/mtu", "plain/l2a/v", // weight
 	"plain/dc/dflt", "plain/dc/other", "plain/dc/in/z",
+	"plain/l1/cfg/descr",
 )}
 
 // UniPlainNA adds the lists whose keys are declared in non-alphabetical order. (Templates are only ever
 // appended, stored cases address them by index.)
-var UniPlainNA = &Universe{Name: "plain+nonalpha", Tmpls: append(append(append([]Tmpl{}, UniPlain.Tmpls[:len(UniPlain.Tmpls)-3]...), tmpls(
-	"plain/l2z/v", "plain/l3/v", "plain/l2z/v", "plain/l3/v")...), UniPlain.Tmpls[len(UniPlain.Tmpls)-3:]...)}
+var UniPlainNA = &Universe{Name: "plain+nonalpha", Tmpls: append(append(append([]Tmpl{}, UniPlain.Tmpls[:len(UniPlain.Tmpls)-4]...), tmpls(
+	"plain/l2z/v", "plain/l3/v", "plain/l2z/v", "plain/l3/v")...), UniPlain.Tmpls[len(UniPlain.Tmpls)-4:]...)}
 
 // UniChoice: the choice subtree plus two plain leaves.
 var UniChoice = &Universe{Name: "choice", Tmpls: tmpls(
@@ -202,6 +203,7 @@ var UniChoice = &Universe{Name: "choice", Tmpls: tmpls(
 	"chc/nest/oi/na", "chc/nest/oi/nb", "chc/nest/oi/oil", "chc/nest/o1l", "chc/nest/oc",
 	"plain/descr", "plain/l1/descr",
 	"chc/cb-x/v", "chc/cl-more/v",
+	"chc/cbp", "chc/cbp/y",
 )}
 
 // UniChoiceNoList: as UniChoice without the choice members inside list entries.
@@ -211,6 +213,7 @@ var UniChoiceNoList = &Universe{Name: "choice-nolist", Tmpls: tmpls(
 	"chc/nest/oi/na", "chc/nest/oi/nb", "chc/nest/oi/oil", "chc/nest/o1l", "chc/nest/oc",
 	"plain/descr", "plain/l1/descr",
 	"chc/cb-x/v", "chc/cl-more/v",
+	"chc/cbp", "chc/cbp/y",
 )}
 
 var Universes = map[string]*Universe{"plain": UniPlain, "plain+nonalpha": UniPlainNA, "choice": UniChoice, "choice-nolist": UniChoiceNoList}
